@@ -373,6 +373,20 @@ package carddav
 //@   ensures F2: err != nil ==> pfErr(err)
 //@   ensures F4: err == nil ==> formOK(propfind)
 //@   ensures F3: mutations == old(mutations)
+//@   -- C10 / C05: typed properties are handed to the serialiser with the backend's values (prop form: at the position of the
+//@   -- requested element, under 200; an unset value is answered 404)
+//@   ensures F5a: err == nil && propFormOnly(propfind) && old(allNamed(propfind)) && ab.Description != "" ==> (forall j int :: 0 <= j && j < old(len(propfind.Prop.Raw)) && old(rawName(propfind.Prop.Raw[j])) == addressBookDescriptionName
+//@   |   ==> loggedCode(old(epCalls) + j) == 200 && dynPtr(loggedVal(old(epCalls) + j), "*addressbookDescription") != nil && (let v : dynPtr(loggedVal(old(epCalls) + j), "*addressbookDescription") in v.Description == ab.Description))
+//@   ensures F5a2: err == nil && propFormOnly(propfind) && old(allNamed(propfind)) && ab.Description == "" ==> (forall j int :: 0 <= j && j < len(propfind.Prop.Raw) && rawName(propfind.Prop.Raw[j]) == addressBookDescriptionName
+//@   |   ==> loggedCode(old(epCalls) + j) == 404)
+//@   ensures F5b: err == nil && propFormOnly(propfind) && old(allNamed(propfind)) && ab.Name != "" ==> (forall j int :: 0 <= j && j < old(len(propfind.Prop.Raw)) && old(rawName(propfind.Prop.Raw[j])) == internal.DisplayNameName
+//@   |   ==> loggedCode(old(epCalls) + j) == 200 && dynPtr(loggedVal(old(epCalls) + j), "*internal.DisplayName") != nil && (let v : dynPtr(loggedVal(old(epCalls) + j), "*internal.DisplayName") in v.Name == ab.Name))
+//@   ensures F5c: err == nil && propFormOnly(propfind) && old(allNamed(propfind)) && ab.Name == "" ==> (forall j int :: 0 <= j && j < len(propfind.Prop.Raw) && rawName(propfind.Prop.Raw[j]) == internal.DisplayNameName
+//@   |   ==> loggedCode(old(epCalls) + j) == 404)
+//@   ensures F5d: err == nil && propFormOnly(propfind) && old(allNamed(propfind)) && ab.MaxResourceSize > 0 ==> (forall j int :: 0 <= j && j < old(len(propfind.Prop.Raw)) && old(rawName(propfind.Prop.Raw[j])) == maxResourceSizeName
+//@   |   ==> loggedCode(old(epCalls) + j) == 200 && dynPtr(loggedVal(old(epCalls) + j), "*maxResourceSize") != nil && (let v : dynPtr(loggedVal(old(epCalls) + j), "*maxResourceSize") in v.Size == ab.MaxResourceSize))
+//@   ensures F5e: err == nil && propFormOnly(propfind) && old(allNamed(propfind)) && ab.MaxResourceSize <= 0 ==> (forall j int :: 0 <= j && j < len(propfind.Prop.Raw) && rawName(propfind.Prop.Raw[j]) == maxResourceSizeName
+//@   |   ==> loggedCode(old(epCalls) + j) == 404)
 //@ func carddav.(*backend).propFindAddressObject(b, ctx, propfind, ao) (resp, err)
 //@   requires R1: b != nil && b.Backend != nil && propfind != nil && ao != nil
 //@   allocates
@@ -380,6 +394,22 @@ package carddav
 //@   ensures F2: err != nil ==> pfErr(err)
 //@   ensures F4: err == nil ==> formOK(propfind)
 //@   ensures F3: mutations == old(mutations)
+//@   -- C10 / C05: typed properties are handed to the serialiser with the backend's values (prop form: at the position of the
+//@   -- requested element, under 200; an unset value is answered 404)
+//@   ensures V1a: err == nil && propFormOnly(propfind) && old(allNamed(propfind)) && ao.ContentLength > 0 ==> (forall j int :: 0 <= j && j < old(len(propfind.Prop.Raw)) && old(rawName(propfind.Prop.Raw[j])) == internal.GetContentLengthName
+//@   |   ==> loggedCode(old(epCalls) + j) == 200 && dynPtr(loggedVal(old(epCalls) + j), "*internal.GetContentLength") != nil && (let v : dynPtr(loggedVal(old(epCalls) + j), "*internal.GetContentLength") in v.Length == ao.ContentLength))
+//@   ensures V1b: err == nil && propFormOnly(propfind) && old(allNamed(propfind)) && ao.ContentLength <= 0 ==> (forall j int :: 0 <= j && j < len(propfind.Prop.Raw) && rawName(propfind.Prop.Raw[j]) == internal.GetContentLengthName
+//@   |   ==> loggedCode(old(epCalls) + j) == 404)
+//@   ensures V2a: err == nil && propFormOnly(propfind) && old(allNamed(propfind)) && ao.ETag != "" ==> (forall j int :: 0 <= j && j < old(len(propfind.Prop.Raw)) && old(rawName(propfind.Prop.Raw[j])) == internal.GetETagName
+//@   |   ==> loggedCode(old(epCalls) + j) == 200 && dynPtr(loggedVal(old(epCalls) + j), "*internal.GetETag") != nil && (let v : dynPtr(loggedVal(old(epCalls) + j), "*internal.GetETag") in string(v.ETag) == ao.ETag))
+//@   ensures V2b: err == nil && propFormOnly(propfind) && old(allNamed(propfind)) && ao.ETag == "" ==> (forall j int :: 0 <= j && j < len(propfind.Prop.Raw) && rawName(propfind.Prop.Raw[j]) == internal.GetETagName
+//@   |   ==> loggedCode(old(epCalls) + j) == 404)
+//@   ensures V3a: err == nil && propFormOnly(propfind) && old(allNamed(propfind)) && !isZeroTime(ao.ModTime) ==> (forall j int :: 0 <= j && j < old(len(propfind.Prop.Raw)) && old(rawName(propfind.Prop.Raw[j])) == internal.GetLastModifiedName
+//@   |   ==> loggedCode(old(epCalls) + j) == 200 && dynPtr(loggedVal(old(epCalls) + j), "*internal.GetLastModified") != nil && (let v : dynPtr(loggedVal(old(epCalls) + j), "*internal.GetLastModified") in ns(v.LastModified) == ns(ao.ModTime)))
+//@   ensures V3b: err == nil && propFormOnly(propfind) && old(allNamed(propfind)) && isZeroTime(ao.ModTime) ==> (forall j int :: 0 <= j && j < len(propfind.Prop.Raw) && rawName(propfind.Prop.Raw[j]) == internal.GetLastModifiedName
+//@   |   ==> loggedCode(old(epCalls) + j) == 404)
+//@   ensures V4a: err == nil && propFormOnly(propfind) && old(allNamed(propfind)) ==> (forall j int :: 0 <= j && j < old(len(propfind.Prop.Raw)) && old(rawName(propfind.Prop.Raw[j])) == internal.GetContentTypeName
+//@   |   ==> loggedCode(old(epCalls) + j) == 200 && dynPtr(loggedVal(old(epCalls) + j), "*internal.GetContentType") != nil && (let v : dynPtr(loggedVal(old(epCalls) + j), "*internal.GetContentType") in v.Type == "text/vcard"))
 //@ func carddav.(*backend).propFindAllAddressObjects(b, ctx, propfind, ab) (resps, err)
 //@   requires R1: b != nil && b.Backend != nil && propfind != nil && ab != nil
 //@   allocates
@@ -408,6 +438,9 @@ package carddav
 //@ func carddav.(*backend).PropFind(b, r, propfind, depth) (ms, err)
 //@   requires R1: servedAB(b) && validReq(r) && propfind != nil
 //@   allocates
+//@   ghostset pfReached : true
+//@   ghostset pfAllProp : propfind.AllProp != nil
+//@   ensures P9: pfReached && pfAllProp == old(propfind.AllProp != nil)
 //@   ensures P0: err == nil ==> ms != nil
 //@   ensures P1: err != nil ==> ms == nil && pfErr(err)
 //@   ensures P2: mutations == old(mutations)
@@ -518,11 +551,17 @@ package carddav
 //@   ensures PF4: routedA(r) && r.Method == "PROPFIND" && hdr(r, "Depth") != "" && hdr(r, "Depth") != "0" && hdr(r, "Depth") != "1" && hdr(r, "Depth") != "infinity" ==> wstatus(w) == 400 && mutations == old(mutations)
 //@   ensures PF5: routedA(r) && r.Method == "PROPFIND" && wstatus(w) == 207 && servedErr == nil && xmlReq(r) && !formOKv(decoded(r, "internal.PropFind")) ==> servedMS != nil && len(servedMS.Responses) == 0
 //@   ensures PF6: r.Method == "PROPFIND" && wstatus(w) == 207 && servedErr == nil ==> servedMS != nil
+//@   -- C11: a PROPFIND without a body (and without an XML content type) means allprop: it reaches the backend's PropFind as an allprop request
+//@   ensures PF7: routedA(r) && r.Method == "PROPFIND" && old(!pfReached && !xmlReq(r) && smt("bool", "(emptyBody $0)", r.Body) && (hdr(r, "Depth") == "" || hdr(r, "Depth") == "0" || hdr(r, "Depth") == "1" || hdr(r, "Depth") == "infinity"))
+//@   |   ==> pfReached && pfAllProp
 //@   -- C13: a 5xx answer stems from the backend or the environment (or is the 501 of an unimplemented method), and a
 //@   -- request that changed something was either carried out or failed inside the backend
 //@   ensures S5: wstatus(w) >= 500 ==> (servedErr != nil && (beErr(servedErr) || fromEnv(servedErr) || httpCode(servedErr) == 501 || decErr(servedErr))) || (!routedA(r) && cardPrincipalErr(h.Backend, reqContext(r)) != nil)
 //@   ensures S4: mutations != old(mutations) ==> (r.Method == "PUT" || r.Method == "DELETE" || r.Method == "MKCOL") && (wstatus(w) < 300 || (servedErr != nil && beErr(servedErr)))
 //@   ensures S3: !routedA(r) ==> mutations == old(mutations)
+//@   -- C12: the well-known URI is answered with a method-preserving redirect (307 / 308: the discovery PROPFIND must stay a
+//@   -- PROPFIND) to the backend's current-user-principal path, unchanged
+//@   ensures WK1: !routedA(r) && cardPrincipalErr(h.Backend, reqContext(r)) == nil ==> (wstatus(w) == 308 || wstatus(w) == 307) && redirURL == cardPrincipal(h.Backend, reqContext(r))
 //@   ensures S2: r.Method != "GET" && r.Method != "HEAD" ==> wstatus(w) != 0
 
 //@ -- ---------------------------------------------------------------------------------------
@@ -530,26 +569,31 @@ package carddav
 //@ -- (specs: funcvalue:internal.PropFindFunc). Their preconditions speak about the captured variables, which hold
 //@ -- where the literal is created (precondition R1 of the creating function).
 //@ func carddav.(*backend).propFindAddressBook$1(raw) (val, err)
+//@   ensures VN: err == nil ==> val != nil
 //@   requires C1: *b != nil && (*b).Backend != nil
 //@   allocates
 //@   ensures V1: mutations == old(mutations) && epCalls == old(epCalls) && epCode == old(epCode) && epVal == old(epVal)
 //@   ensures V2: err != nil ==> beErr(err) || fromEnv(err)
 //@ func carddav.(*backend).propFindAddressObject$1(raw) (val, err)
+//@   ensures VN: err == nil ==> val != nil
 //@   requires C1: *b != nil && (*b).Backend != nil
 //@   allocates
 //@   ensures V1: mutations == old(mutations) && epCalls == old(epCalls) && epCode == old(epCode) && epVal == old(epVal)
 //@   ensures V2: err != nil ==> beErr(err) || fromEnv(err)
 //@ func carddav.(*backend).propFindAddressObject$2(raw) (val, err)
+//@   ensures VN: err == nil ==> val != nil
 //@   requires C1: *ao != nil
 //@   allocates
 //@   ensures V1: mutations == old(mutations) && epCalls == old(epCalls) && epCode == old(epCode) && epVal == old(epVal)
 //@   ensures V2: err != nil ==> beErr(err) || fromEnv(err)
 //@ func carddav.(*backend).propFindHomeSet$1(raw) (val, err)
+//@   ensures VN: err == nil ==> val != nil
 //@   requires C1: *b != nil && (*b).Backend != nil
 //@   allocates
 //@   ensures V1: mutations == old(mutations) && epCalls == old(epCalls) && epCode == old(epCode) && epVal == old(epVal)
 //@   ensures V2: err != nil ==> beErr(err) || fromEnv(err)
 //@ func carddav.(*backend).propFindUserPrincipal$1(raw) (val, err)
+//@   ensures VN: err == nil ==> val != nil
 //@   requires C1: *b != nil && (*b).Backend != nil
 //@   allocates
 //@   ensures V1: mutations == old(mutations) && epCalls == old(epCalls) && epCode == old(epCode) && epVal == old(epVal)
